@@ -157,6 +157,12 @@ def run(ctx: Ctx) -> Outcome:
                 "broadcast_to), non-view ops and in-place updates (item assignment, augmented assignment, out= with optional "
                 "where=) on bases, views and views of views; non-trivial = >=2 in-place updates and >=1 view; distinct by hash")
     seen = engcheck.report(out, results, "C04", oracle)
+    # the same with statements that NumPy and MyGrad both reject (a rejected statement produces nothing on either side)
+    # and with handles dropped along the way (the middle view of a view of a view is then held by the graph alone)
+    outf, resultsf = engcheck.run_programs(ctx, ctx.n(700, 4000), dict(GEN, n_stmts=ctx.n(12, 24), p_fail=0.12, p_del=0.08),
+                                           "oracle", nontrivial, label="rejects:")
+    engcheck.report(outf, resultsf, "C04", oracle)
+    out.merge(outf)
     # the `.shape` setter (known to be false of the unchanged code once an in-place update follows)
     for v in shape_setter_cases(ctx):
         if v.signature not in seen:
